@@ -617,7 +617,7 @@ func gen(r *h.Rand, tier string, emit func([]string)) {
 			ths = append(ths, "values "+k)
 		}
 		emit([]string{fmt.Sprintf("write %s=%d:f:3ff0000000000000", k, t0+int64(r.Intn(50))),
-			"conc " + strings.Join(ths, " | ") + " || values " + k + " ; count"})
+			"conc " + strings.Join(ths, " | ") + " || values " + k + " ; size ; count"})
 	}
 	// 3. malformed lines
 	emit([]string{"write", "write 6b", "write 6b=1:f:1", "write 6b=1:x:1", "write 6B=1:i:1", "write 6b=1:i:01", "write 6b=1:i:1 6b=2:i:1",
